@@ -146,7 +146,7 @@ pub fn check_cfg_model_opt(id: &str, o: &Obs, m: &WModel, when: &str, dups_toler
     }
     let ns: BTreeMap<String, String> = o.ns.iter().cloned().collect();
     for (k, v) in &m.ns {
-        vensure!(ns.get(k) == Some(v), &format!("{}.namespace", id), "{}: namespace {} should be {:?} but the node lists {:?}", when, k, v, ns.get(k));
+        vensure!(ns.get(k).map(|x| x.split('#').next().unwrap_or("").to_string()).as_ref() == Some(v), &format!("{}.namespace", id), "{}: namespace {} should be {:?} but the node lists {:?}", when, k, v, ns.get(k));
     }
     for (k, _) in &ns {
         if k.starts_with("ns") {
@@ -2076,6 +2076,7 @@ pub async fn exec_c19(script: Value) -> ExecResult {
         }
         let mut m = WModel::default();
         let mut handles = vec![];
+        let paced = script["paced"].as_bool().unwrap_or(false);
         for (i, st) in steps.iter().enumerate() {
             sim::event(&format!("step {} {}", i, serde_json::to_string(st).unwrap_or_default()));
             match st {
@@ -2101,7 +2102,79 @@ pub async fn exec_c19(script: Value) -> ExecResult {
                             recs2.borrow_mut().push(IdRec { node: nid, range: is_range, key, ids, invoke, ret: sim::ev_seq() });
                         }
                     }));
-                    // several requests in flight per node
+                    // several requests in flight per node - except in paced runs, where every request ends before the next
+                    if paced {
+                        if let Some(h) = handles.pop() {
+                            let _ = h.await;
+                        }
+                    } else if i % 3 == 0 {
+                        advance(1).await;
+                    }
+                }
+                WStep::SeqBurst { node: nid, key, k, pos, range_len, then } => {
+                    use rnacos::sequence::{SequenceRequest, SequenceResult};
+                    let target = match node(*nid) {
+                        Some(t) => t,
+                        None => continue,
+                    };
+                    let recs2 = recs.clone();
+                    let (key, nid, k, pos, range_len, then) = (*key % 3, *nid, (*k).max(2), *pos, (*range_len).max(1) as u64, *then);
+                    sim::event("invoke seq burst");
+                    let invoke = sim::ev_seq();
+                    sim::count("probe.burst_of_next_id_requests", 1);
+                    handles.push(actix_rt::spawn(async move {
+                        let kname = Arc::new(format!("seq{}", key));
+                        let mut futs: Vec<std::pin::Pin<Box<dyn std::future::Future<Output = (bool, Vec<u64>)>>>> = vec![];
+                        for j in 0..k {
+                            if j == pos % k {
+                                let (t, kn) = (target.clone(), kname.clone());
+                                futs.push(Box::pin(async move {
+                                    match within(20_000, t.app.sequence_manager.send(SequenceRequest::GetDirectRange(kn, range_len))).await {
+                                        Some(Ok(Ok(SequenceResult::Range(mut r)))) => {
+                                            let mut ids = vec![];
+                                            while let Some(id) = r.next_id() {
+                                                ids.push(id);
+                                                if ids.len() > 10_000 {
+                                                    break;
+                                                }
+                                            }
+                                            (true, ids)
+                                        }
+                                        _ => (true, vec![]),
+                                    }
+                                }));
+                            }
+                            let (t, kn) = (target.clone(), kname.clone());
+                            futs.push(Box::pin(async move {
+                                match within(20_000, t.app.sequence_manager.send(SequenceRequest::GetNextId(kn))).await {
+                                    Some(Ok(Ok(SequenceResult::NextId(id)))) => (false, vec![id]),
+                                    _ => (false, vec![]),
+                                }
+                            }));
+                        }
+                        let results = futures_util::future::join_all(futs).await;
+                        sim::event("return seq burst");
+                        let ret = sim::ev_seq();
+                        for (is_range, ids) in results {
+                            if !ids.is_empty() {
+                                recs2.borrow_mut().push(IdRec { node: nid, range: is_range, key, ids, invoke, ret });
+                            }
+                        }
+                        // then enough single draws to use up every range the burst fetched
+                        sim::event("invoke seq");
+                        let invoke2 = sim::ev_seq();
+                        let mut ids = vec![];
+                        for _ in 0..then {
+                            match within(20_000, target.app.sequence_manager.send(SequenceRequest::GetNextId(kname.clone()))).await {
+                                Some(Ok(Ok(SequenceResult::NextId(id)))) => ids.push(id),
+                                _ => break,
+                            }
+                        }
+                        sim::event("return seq");
+                        if !ids.is_empty() {
+                            recs2.borrow_mut().push(IdRec { node: nid, range: false, key, ids, invoke: invoke2, ret: sim::ev_seq() });
+                        }
+                    }));
                     if i % 3 == 0 {
                         advance(1).await;
                     }
@@ -2176,7 +2249,90 @@ pub async fn exec_c19(script: Value) -> ExecResult {
                                 }
                                 return Ok(());
                             }
-                            vensure!(ma < mb, &format!("{}.went_backwards", id), "sequence seq{} on node {}: a request that returned at event {} got ids up to {}, a later request (invoked at {}) got ids from {}", key, a.node, a.ret, ma, b.invoke, mb);
+                            if ma >= mb {
+                                // (ids of one request compressed into ascending runs)
+                                let runs = |ids: &Vec<u64>| -> String {
+                                    let mut out = vec![];
+                                    let mut i = 0;
+                                    while i < ids.len() {
+                                        let mut j = i;
+                                        while j + 1 < ids.len() && ids[j + 1] == ids[j] + 1 {
+                                            j += 1;
+                                        }
+                                        out.push(if i == j { format!("{}", ids[i]) } else { format!("{}-{}", ids[i], ids[j]) });
+                                        i = j + 1;
+                                    }
+                                    out.join(",")
+                                };
+                                let all: Vec<String> = recs.iter().filter(|r| r.key == key && r.node == a.node).map(|r| format!("{}[{}]@{}-{}", if r.range { "range" } else { "next" }, runs(&r.ids), r.invoke, r.ret)).collect();
+                                // recorded defect (see known_findings.jsonl): with several next-id requests of one node in flight at
+                                // once, each cache miss fetches its own range; the answers can arrive in any order and a range fetched
+                                // earlier (lower ids) is taken into use after a later one - the node's ids drop by whole ranges.
+                                // Evidence required: the two ids lie in different ranges of the node-local step (100) - the drop is by
+                                // whole ranges - and nothing is handed out twice (duplicates are checked above, before this clause).
+                                // the ranges as the replicated counter allocated them, rebuilt from a node's raft log (None when the log's
+                                // beginning has been compacted away: then the ids cannot be attributed to ranges and the pair is accepted
+                                // as the recorded defect on the strength of 'nothing was handed out twice')
+                                let allocs: Option<Vec<(u64, u64)>> = {
+                                    use async_raft_ext::raft::EntryPayload;
+                                    use rnacos::raft::store::ClientRequest;
+                                    use rnacos::sequence::model::SequenceRaftReq;
+                                    let mut out = None;
+                                    for n in live_nodes() {
+                                        let m = metrics(&n);
+                                        if let Ok(es) = n.app.raft_store.get_log_entries(1, m.last_log_index + 1).await {
+                                            if es.first().map(|e| e.index == 1).unwrap_or(false) && es.iter().all(|e| !matches!(e.payload, EntryPayload::SnapshotPointer(_))) {
+                                                let kname = format!("seq{}", key);
+                                                let mut next = 1u64;
+                                                let mut v = vec![];
+                                                for e in &es {
+                                                    if let EntryPayload::Normal(nm) = &e.payload {
+                                                        if let ClientRequest::SequenceReq { req } = &nm.data {
+                                                            match req {
+                                                                SequenceRaftReq::NextRange(k, len) if k.as_str() == kname => {
+                                                                    v.push((next, next + len - 1));
+                                                                    next += len;
+                                                                }
+                                                                SequenceRaftReq::NextId(k) if k.as_str() == kname => {
+                                                                    v.push((next, next));
+                                                                    next += 1;
+                                                                }
+                                                                _ => {}
+                                                            }
+                                                        }
+                                                    }
+                                                }
+                                                out = Some(v);
+                                                break;
+                                            }
+                                        }
+                                    }
+                                    out
+                                };
+                                let block = |x: u64| -> u64 {
+                                    match &allocs {
+                                        Some(v) => v.iter().position(|(s, e)| *s <= x && x <= *e).map(|p| p as u64).unwrap_or(u64::MAX - x),
+                                        // unknown allocation: every id its own range
+                                        None => x,
+                                    }
+                                };
+                                let singles: Vec<&IdRec> = recs.iter().filter(|r| r.key == key && r.node == a.node && !r.range).collect();
+                                let overlapped = singles.iter().enumerate().any(|(i1, r1)| singles.iter().enumerate().any(|(i2, r2)| i1 != i2 && r1.invoke < r2.ret && r2.invoke < r1.ret && r1.invoke <= a.ret && r2.invoke <= a.ret));
+                                // (the second fetch in flight can also be the cache's own prefetch - FillRange - racing the cache miss of
+                                // a single client that draws faster than the prefetch answers; so overlap of client requests is noted,
+                                // not required)
+                                if overlapped {
+                                    sim::count("probe.next_id_requests_overlapped", 1);
+                                }
+                                if !a.range && block(*ma) != block(*mb) {
+                                    sim::count("probe.cached_range_taken_into_use_after_a_higher_one", 1);
+                                    if !findings.iter().any(|f| f.clause.ends_with("cached_range_taken_into_use_after_a_higher_one")) {
+                                        findings.push(Violation::new(&format!("{}.cached_range_taken_into_use_after_a_higher_one", id), format!("sequence seq{} on node {}: a request that returned at event {} got ids up to {}, a later request (invoked at {}) got ids from {}: two range fetches of the node were in flight at once (cache misses of overlapping requests, or a cache miss racing the cache's own prefetch) and the lower range came into use after the higher one (requests of this node on the key, kind[ids]@invoke-return: {})", key, a.node, a.ret, ma, b.invoke, mb, all.join(" "))));
+                                    }
+                                    continue;
+                                }
+                                vfail!(&format!("{}.went_backwards", id), "sequence seq{} on node {}: a request that returned at event {} got ids up to {}, a later request (invoked at {}) got ids from {} (all requests of this node on the key, kind[first..last]@invoke-return: {})", key, a.node, a.ret, ma, b.invoke, mb, all.join(" "));
+                            }
                         }
                     }
                 }
@@ -2247,12 +2403,18 @@ impl Check for C19 {
             cfg.disk_max_delay_us = *rng.pick(&[200u64, 5_000, 50_000]);
         }
         let n = rng.range(10, 70);
+        // a third of the runs is paced: no two sequence requests overlap, so that ids going backwards cannot be put down
+        // to the recorded out-of-order range defect
+        let paced = Rng::derive(seed, "C19.paced", 0).chance(0.33);
         let mut steps = vec![];
         for _ in 0..n {
             let node = rng.range(1, cfg.nodes);
             let r = rng.below(100);
-            let st = if r < 45 {
-                WStep::SeqNext { node, key: rng.below(3) as u8, n: rng.range(1, 6) as u8 }
+            let st = if r < 40 {
+                WStep::SeqNext { node, key: rng.below(3) as u8, n: *rng.pick(&[1u8, 1, 2, 3, 5, 40, 120]) }
+            } else if r < 45 && !paced {
+                let k = rng.range(2, 6) as u8;
+                WStep::SeqBurst { node, key: rng.below(3) as u8, k, pos: rng.below(k as u64 + 1) as u8, range_len: *rng.pick(&[1u8, 50, 100, 120]), then: *rng.pick(&[0u16, 30, 150, 450]) }
             } else if r < 60 {
                 WStep::SeqRange { node, key: rng.below(3) as u8, len: *rng.pick(&[1u8, 2, 50, 99, 100, 101, 120]) }
             } else if r < 79 {
@@ -2269,7 +2431,7 @@ impl Check for C19 {
             };
             steps.push(st);
         }
-        json!({"check": "C19", "seed": seed, "cfg": cfg, "steps": steps})
+        json!({"check": "C19", "seed": seed, "cfg": cfg, "paced": paced, "steps": steps})
     }
     fn execute(&self, script: Value) -> LocalFut<ExecResult> {
         Box::pin(exec_c19(script))
